@@ -5,6 +5,7 @@
 import VerdeModel.Model.Gridder
 import VerdeModel.Lemmas.Grid
 import VerdeModel.Lemmas.Coords
+import VerdeModel.Gen.Gridder
 namespace Verde.C05
 open Verde
 
@@ -145,6 +146,208 @@ theorem scatter_rows (p : Predict) (ncomp : Nat) (w e s n : Rat) (hwe : w ≤ e)
           ((scatterAxis w e ue).zip (scatterAxis s n un)).map fun q => (p q).getD k 0)) := by
   simp [scatterModel, scatterPoints, checkRegion, not_lt.mpr hwe, not_lt.mpr hsn, getDataNames, hnm, extraCoordNames,
     bind, Except.bind, pure, Except.pure]
+
+
+/-! ## The regenerated source (Gen/Gridder.lean, translated from base/base_classes.py on every run) equals the model -/
+
+/-- (`Gen.scatterPoints` = the model's `scatterPoints`; also C13 `gen_scatter_points_eq_model`, repeated here so that this file depends on
+    the translation of `scatter_points` only.) -/
+theorem gen_scatter_points_eq_model' (region : List Rat) (ue un extra : List Rat) :
+    Gen.scatterPoints region [ue, un] extra = scatterPoints region ue un extra := by
+  unfold Gen.scatterPoints scatterPoints scatterAxis
+  cases checkRegion region with
+  | error e => rfl
+  | ok r =>
+    simp only [bind, Except.bind, pure, Except.pure, List.zip_cons_cons, List.zip_nil_right, List.map_cons, List.map_nil, List.headD_cons,
+      List.map_map, List.cons_append, List.nil_append]
+    rfl
+
+
+theorem gen_get_dims (d : Option (String × String)) :
+    Gen.getDims Gen.baseDims d = d.getD ("northing", "easting") := by
+  cases d <;> rfl
+
+theorem gen_extra_coords_names (cs : List (List Rat)) :
+    Gen.getExtraCoordsNames Gen.baseExtraCoordsName cs = extraCoordNames (cs.length - 2) := by
+  unfold Gen.getExtraCoordsNames extraCoordNames Gen.baseExtraCoordsName
+  rw [List.length_drop]
+  apply List.map_congr_left
+  intro i _
+  by_cases h : i = 0
+  · subst h; simp
+  · have : i > 0 := Nat.pos_of_ne_zero h
+    simp only [h, this, if_true, if_false]
+    rw [String.append_empty, ← String.append_assoc]
+    rfl
+
+theorem gen_check_data_names (n : Nat) (names : List String) :
+    Gen.checkDataNames n names = (if names.length = n then .ok names else .error .valueError) := by
+  unfold Gen.checkDataNames
+  by_cases h : names.length = n
+  · subst h; simp [pure, Except.pure]
+  · have : n ≠ names.length := fun e => h e.symm
+    simp [h, this, bind, Except.bind, throw, throwThe, MonadExceptOf.throw]
+
+theorem gen_get_data_names (ncomp : Nat) (h1 : 1 ≤ ncomp) (names : Option (List String)) :
+    Gen.getDataNames Gen.baseDataNamesDefaults ncomp names = getDataNames ncomp names := by
+  unfold Gen.getDataNames getDataNames
+  cases names with
+  | some ns =>
+    simp only [gen_check_data_names]
+  | none =>
+    simp only [Gen.baseDataNamesDefaults, List.length_cons, List.length_nil]
+    rcases Nat.lt_or_ge 3 ncomp with h | h
+    · have : ncomp > 0 + 1 + 1 + 1 := h
+      simp only [this, if_true]
+      match ncomp, h with
+      | n + 4, _ => rfl
+    · match ncomp, h1, h with
+      | 1, _, _ => rfl
+      | 2, _, _ => rfl
+      | 3, _, _ => rfl
+
+theorem gen_get_instance_region (dflt region : Option (List Rat)) :
+    Gen.getInstanceRegion dflt region = (match region.orElse fun _ => dflt with
+      | some r => .ok r
+      | none => .error .valueError) := by
+  cases region <;> cases dflt <;> rfl
+
+
+
+theorem predictTbl_length (p : Predict) (ncomp : Nat) (cs : List (List Rat)) : (predictTbl p ncomp cs).length = ncomp := by
+  simp [predictTbl]
+
+theorem projectCoordinates_eq (cs : List (List Rat)) (f : Rat × Rat → Rat × Rat) :
+    Gen.projectCoordinates cs f = applyProjTbl f (cs.take 2) ++ cs.drop 2 := by
+  unfold Gen.projectCoordinates
+  by_cases h : cs.length > 2
+  · simp [h, Id.run, pure]
+  · have : cs.drop 2 = [] := List.drop_eq_nil_of_le (by omega)
+    simp [h, Id.run, pure, this]
+
+theorem projectCoordinates_getD0 (cs : List (List Rat)) (f : Rat × Rat → Rat × Rat) :
+    (Gen.projectCoordinates cs f).getD 0 [] = ((cs.getD 0 []).zip (cs.getD 1 [])).map fun q => (f q).1 := by
+  rw [projectCoordinates_eq]
+  match cs with
+  | [] => simp [applyProjTbl]
+  | [a] => simp [applyProjTbl]
+  | a :: b :: t => simp [applyProjTbl]
+
+theorem projectCoordinates_getD1 (cs : List (List Rat)) (f : Rat × Rat → Rat × Rat) :
+    (Gen.projectCoordinates cs f).getD 1 [] = ((cs.getD 0 []).zip (cs.getD 1 [])).map fun q => (f q).2 := by
+  rw [projectCoordinates_eq]
+  match cs with
+  | [] => simp [applyProjTbl]
+  | [a] => simp [applyProjTbl]
+  | a :: b :: t => simp [applyProjTbl]
+
+theorem projectCoordinates_drop2 (cs : List (List Rat)) (f : Rat × Rat → Rat × Rat) :
+    (Gen.projectCoordinates cs f).drop 2 = cs.drop 2 := by
+  rw [projectCoordinates_eq]
+  simp [applyProjTbl]
+
+theorem gen_scatter_eq_model (p : Predict) (ncomp : Nat) (h1 : 1 ≤ ncomp) (dflt region : Option (List Rat)) (ue un extra : List Rat)
+    (proj : Option Proj) (inv : Rat × Rat → Rat × Rat) (dims : Option (String × String)) (names : Option (List String)) :
+    Gen.scatter p ncomp Gen.baseDims Gen.baseExtraCoordsName Gen.baseDataNamesDefaults dflt region [ue, un] extra dims names
+        (proj.map fun pr b => if b then inv else pr.apply)
+      = scatterModel p ncomp dflt region ue un extra proj dims names := by
+  unfold Gen.scatter scatterModel
+  rw [gen_get_instance_region, gen_get_dims]
+  cases hreg : (region.orElse fun _ => dflt) with
+  | none => rfl
+  | some reg =>
+    simp only [bind, Except.bind, pure, Except.pure, gen_scatter_points_eq_model', scatterPoints]
+    cases checkRegion reg with
+    | error e => rfl
+    | ok r =>
+      simp only []
+      cases proj with
+      | none =>
+        simp only [Option.map_none, predictTbl_length, gen_get_data_names ncomp h1, gen_extra_coords_names]
+        cases getDataNames ncomp names with
+        | error e => rfl
+        | ok nm =>
+          simp [predictTbl]
+      | some pr =>
+        simp only [Option.map_some, predictTbl_length, gen_get_data_names ncomp h1, gen_extra_coords_names]
+        cases getDataNames ncomp names with
+        | error e => rfl
+        | ok nm =>
+          simp only [predictTbl, projectCoordinates_getD0, projectCoordinates_getD1]
+          simp [List.zip_map', Function.comp_def]
+
+
+theorem projectCoordinates_length (cs : List (List Rat)) (f : Rat × Rat → Rat × Rat) :
+    (Gen.projectCoordinates cs f).length = 2 + (cs.length - 2) := by
+  rw [projectCoordinates_eq]; simp [applyProjTbl]; omega
+
+theorem projectCoordinates_point (q : Rat × Rat) (f : Rat × Rat → Rat × Rat) :
+    Gen.projectCoordinates [[q.1], [q.2]] f = [[(f q).1], [(f q).2]] := by
+  rw [projectCoordinates_eq]; simp [applyProjTbl]
+
+theorem gen_profile_eq_model (p : Predict) (ncomp : Nat) (h1 : 1 ≤ ncomp) (p1 p2 : Rat × Rat) (size : Int) (proj : Option (Proj × Proj))
+    (extra : List Rat) (dims : Option (String × String)) (names : Option (List String)) :
+    Gen.profile p ncomp Gen.baseDims Gen.baseExtraCoordsName Gen.baseDataNamesDefaults [[p1.1], [p1.2]] [[p2.1], [p2.2]] size extra dims names
+        (proj.map fun fg b => if b then fg.2.apply else fg.1.apply)
+      = profileModel p ncomp p1 p2 size proj extra dims names := by
+  unfold Gen.profile profileModel
+  rw [gen_get_dims]
+  cases proj with
+  | none =>
+    simp only [Option.map_none, bind, Except.bind, pure, Except.pure, profileCoordinatesTbl, List.getD_cons_zero, List.getD_cons_succ, List.headD_cons]
+    cases profilePoints p1 p2 size with
+    | error e => rfl
+    | ok pts =>
+      simp only [predictTbl_length, gen_get_data_names ncomp h1, gen_extra_coords_names]
+      cases getDataNames ncomp names with
+      | error e => rfl
+      | ok nm =>
+        simp [predictTbl, List.zip_map', Function.comp_def]
+  | some fg =>
+    obtain ⟨f, g⟩ := fg
+    simp only [Option.map_some, bind, Except.bind, pure, Except.pure, profileCoordinatesTbl, projectCoordinates_point,
+      List.getD_cons_zero, List.getD_cons_succ, List.headD_cons, Bool.false_eq_true, if_false, if_true]
+    cases profilePoints (f.apply p1) (f.apply p2) size with
+    | error e => rfl
+    | ok pts =>
+      simp only [predictTbl_length, gen_get_data_names ncomp h1, gen_extra_coords_names, projectCoordinates_drop2]
+      cases getDataNames ncomp names with
+      | error e => rfl
+      | ok nm =>
+        simp only [predictTbl, projectCoordinates_getD0, projectCoordinates_getD1, projectCoordinates_length]
+        simp [List.zip_map', Function.comp_def]
+
+/-! ### `src_*`: the property stated directly about the regenerated definitions -/
+
+/-- `scatter()` as the source has it: northing column = second scatter axis, easting column = first, then one column per name. -/
+theorem src_scatter_rows (p : Predict) (ncomp : Nat) (h1 : 1 ≤ ncomp) (w e s n : Rat) (hwe : w ≤ e) (hsn : s ≤ n) (ue un : List Rat)
+    (names : List String) (hnm : names.length = ncomp) :
+    Gen.scatter p ncomp Gen.baseDims Gen.baseExtraCoordsName Gen.baseDataNamesDefaults none (some [w, e, s, n]) [ue, un] [] none (some names) none =
+      .ok (("northing", scatterAxis s n un) :: ("easting", scatterAxis w e ue) ::
+        names.zip ((List.range ncomp).map fun k =>
+          ((scatterAxis w e ue).zip (scatterAxis s n un)).map fun q => (p q).getD k 0)) :=
+  (gen_scatter_eq_model p ncomp h1 none (some [w, e, s, n]) ue un [] none id none (some names)).trans
+    (scatter_rows p ncomp w e s n hwe hsn ue un names hnm)
+
+/-- `profile()` as the source has it: predictions at the projected profile points, coordinates mapped back with the inverse projection,
+    distances in projected units. -/
+theorem src_profile_rows (p : Predict) (ncomp : Nat) (h1 : 1 ≤ ncomp) (p1 p2 : Rat × Rat) (size : Int)
+    (f g : Proj) (extra : List Rat) (names : List String) (hnm : names.length = ncomp)
+    (pts : List (Rat × Rat × Rat)) (hpts : profilePoints (f.apply p1) (f.apply p2) size = .ok pts) :
+    Gen.profile p ncomp Gen.baseDims Gen.baseExtraCoordsName Gen.baseDataNamesDefaults [[p1.1], [p1.2]] [[p2.1], [p2.2]] size extra none (some names)
+        (some fun b => if b then g.apply else f.apply) =
+      .ok (("northing", pts.map fun q => (g.apply (q.1, q.2.1)).2) ::
+           ("easting", pts.map fun q => (g.apply (q.1, q.2.1)).1) ::
+           ("distance", pts.map fun q => q.2.2) ::
+           ((extraCoordNames extra.length).zip (extra.map fun v => pts.map fun _ => v)) ++
+           names.zip ((List.range ncomp).map fun k => pts.map fun q => (p (q.1, q.2.1)).getD k 0)) :=
+  (gen_profile_eq_model p ncomp h1 p1 p2 size (some (f, g)) extra none (some names)).trans
+    (profile_rows p ncomp p1 p2 size f g extra names hnm pts hpts)
+
+/-- A gridder that was never fitted and is given no region refuses to scatter. -/
+theorem src_scatter_no_region (p : Predict) (ncomp : Nat) (vs : List (List Rat)) (extra : List Rat) (d : Option (String × String))
+    (nm : Option (List String)) (pr : Option (Bool → Rat × Rat → Rat × Rat)) :
+    Gen.scatter p ncomp Gen.baseDims Gen.baseExtraCoordsName Gen.baseDataNamesDefaults none none vs extra d nm pr = .error .valueError := rfl
 
 /-! Non-vacuity -/
 example : (gridModel (polyPredict [(0, 2, 1000, 1/8)]) 1
